@@ -148,13 +148,20 @@ impl Property for C20 {
     fn components(&self) -> serde_json::Value {
         crate::components_mac()
     }
+    fn coverage_extra(&self, tier: Tier, runs: u64) -> serde_json::Value {
+        serde_json::json!({ "bounded_depth_enumeration": super::enum_coverage(tier, runs) })
+    }
     fn budget(&self, tier: Tier) -> u64 {
         match tier {
             Tier::Quick => 1_500_000,
             Tier::Thorough => 20_000_000,
         }
     }
-    fn generate(&self, seed: u64, run: u64, _tier: Tier, avoid: &BTreeSet<String>) -> MacCase {
+    fn generate(&self, seed: u64, run: u64, tier: Tier, avoid: &BTreeSet<String>) -> MacCase {
+        // bounded-depth enumeration over the event alphabet (save / power loss / restore is one of its letters)
+        if let Some(c) = super::enum_generate("C20", run, tier) {
+            return c;
+        }
         let mut r = Rng::new(run_seed(seed, "C20", run));
         let mut cfg = gen_cfg(&mut r, &CfgProfile { frontends: ALL_FRONTENDS, otaa_pct: 20, boundary_counters_pct: 60, join_bias_pct: 10 });
         let mutation_mode = run % 3 == 0;
